@@ -25,6 +25,11 @@ CLAIMS = {
   note="Trusted: Lean kernel; axioms propext, Quot.sound, Classical.choice; sort.SliceStable is assumed stable (the model is stable insertion sort; every stable sort computes the same list) and tied by the VerifTreeSort correspondence; goatx (priority table); joinFiles and the run-time commutation of hoisted declarations are covered by the package-permutation search only; hoistable names that coincide with a builtin (finding N7) are excluded from the generator.",
   technique="Lean 4 proof (closed form of stable sort by priority, for all lists; table facts by decide) + treeSort correspondence + permutation/partition search on generated packages",
   ref="7/C16"),
+ "C08": dict(
+  text="Machine-checked (Lean 4 kernel) about the model of lookup.go/compiler.go's scope operations (keys as (number of leading tildes, name) over a finite map): for a chain x, ~x, ~~x, ... of ANY length, shadow moves every entry one level out and frees level 0 touching no other name (shadow_shifts), unshadow moves every entry one level in and leaves no stale ~ entry (unshadow_unshifts - false of the code before the repair), redeclare-then-close is the identity on the whole table at every nesting depth (shadow_unshadow_id), an invisible name gets a fresh never-used slot and a visible one its own slot (index_fresh, index_visible), closing scopes never shrinks the slot count (drop_length). PARTIAL: the composition 'for every well-bracketed history the table equals the stack-of-frames environment' needs an induction over Drop's loop that is not done in Lean yet; it is covered by the correspondence (whole key->slot table compared after every operation), by a native stack-of-frames oracle (innermost binding, no stale entries, no shared slots) and by Go-toolchain (GOARCH=386) runs of generated programs that redeclare names at every kind of block boundary.",
+  note="Trusted: Lean kernel; axioms propext, Quot.sound, Classical.choice (Std.HashMap lemmas); names never start with '~' (not a Go identifier character); which compile case calls Shadow/Index/Begin/End (function bodies, if, for and range bodies, switch clauses) is covered by the Go-toolchain search, not by a theorem; the Go toolchain (GOARCH=386 so that int is 32 bits) is the oracle.",
+  technique="Lean 4 proof (shift lemmas by induction on chain length over a finite-map model) + model/implementation correspondence on scope-operation histories + Go toolchain oracle on generated shadowing programs",
+  ref="7/C08"),
  "C05": dict(
   text="Machine-checked (Lean 4 kernel) for every expression of any size and nesting: goatlang's Pratt parser, with the binding-power table regenerated from symbol.go on this run, reads the text that Go's five-level grammar prints for a tree (with any redundant parentheses) back as exactly that tree (theorems groups_as_go, groups_as_go_ctx; table facts table_ops/table_ok/table_iso/table_order by kernel evaluation on the regenerated table; &^ by andnot_equiv). The hand-written parser model is tied to the real parser by an exhaustive + random tree-for-tree correspondence, and go/parser plus native Go evaluation search for a failing input.",
   note="Trusted: Lean kernel; axioms propext, Quot.sound, Classical.choice only; goatx table extractor; the parser model covers names, integer literals, the 18 binary and 3 prefix operators and parentheses (calls, indexing, selectors, composite literals are not in the model; they bind tighter than every operator and are exercised only by the correspondence run through the real parser); text/scanner tokenisation is trusted; values are checked by search (native Go int32/bool evaluation), not proved here (C04 carries the arithmetic).",
